@@ -16,6 +16,8 @@ import tempfile
 import time
 
 PROPS = ["C%02d" % i for i in range(1, 18)]
+# HSA_VERIF_DIR: run the checks of another checkout of /verif (a worktree frozen before a held-out seeding round)
+VERIF = os.environ.get("HSA_VERIF_DIR", "/verif")
 
 
 def sh(cmd, cwd=None, env=None, timeout=1800):
@@ -57,7 +59,7 @@ def main():
     try:
         rc, o = sh("git -C /repo apply %s" % patch)
         assert rc == 0, o
-        procs = {p: subprocess.Popen("./check %s quick" % p, shell=True, cwd="/verif", stdout=subprocess.PIPE,
+        procs = {p: subprocess.Popen("./check %s quick" % p, shell=True, cwd=VERIF, stdout=subprocess.PIPE,
                                      stderr=subprocess.STDOUT, text=True) for p in PROPS}
         for p, pr in procs.items():
             o, _ = pr.communicate()
@@ -76,6 +78,10 @@ def main():
     meta["analysis_error_in"] = sorted(p for p, v in verdicts.items() if v["rc"] == 2)
     meta["silent"] = sorted(p for p, v in verdicts.items() if v["rc"] == 0)
     meta["evaluated_at"] = time.strftime("%Y-%m-%dT%H:%M:%SZ", time.gmtime())
+    meta["verif_commit"] = sh("git -C %s rev-parse --short HEAD" % VERIF)[1].strip()
+    if VERIF != "/verif":
+        meta["first_pass"] = {"detected_by": meta["detected_by"], "analysis_error_in": meta["analysis_error_in"],
+                              "verif_commit": meta["verif_commit"], "note": "held-out: checks frozen before the round"}
     dst = os.path.join("/verif/seeded", sid)
     os.makedirs(dst, exist_ok=True)
     shutil.copy(patch, os.path.join(dst, "patch.diff"))
